@@ -7,6 +7,7 @@ mod gen;
 mod isolate;
 mod mutate;
 mod netbed;
+mod nodebed;
 mod props;
 mod sched;
 mod terms;
